@@ -65,7 +65,11 @@ class FlagSimpleOpWriteHandler(AbstractWriteHandler):
             else:
                 self.decompiler.write_stmnt(f"{op.params[0]}[{op.params[1]}] = {op.params[2]};")
         elif op.op_code.name == OPS_FLAG__CALC_VALUE:
-            self.decompiler.write_stmnt(f"{op.params[0]} {SsbCalcOperator(op.params[1]).notation} {op.params[2]};")  # type: ignore
+            if op.params[1] == SsbCalcOperator.ASSIGN.value:
+                # (`$VAR = 5;` is the spelling of flag_Set)
+                self.decompiler.write_stmnt(f"{op.op_code.name}({', '.join(str(p) for p in op.params)});")
+            else:
+                self.decompiler.write_stmnt(f"{op.params[0]} {SsbCalcOperator(op.params[1]).notation} {op.params[2]};")  # type: ignore
         elif op.op_code.name == OPS_FLAG__CALC_VARIABLE:
             self.decompiler.write_stmnt(
                 f"{op.params[0]} {SsbCalcOperator(op.params[1]).notation} value({op.params[2]});"  # type: ignore
